@@ -60,6 +60,10 @@ fn message(b: &[u8], start: usize, end: usize, kind: Option<K>, depth: u32, top_
             2 => {
                 let len = varint(b, &mut at, end, "length")?;
                 let remaining = (end - at) as u64;
+                if len > remaining && (at as u64).checked_add(len) == Some(u64::MAX) {
+                    // own class: the decoder's "unbounded" sentinel value
+                    return Err(("len-ends-at-u64-max", format!("field {num} at offset {hdr} declares {len} bytes: position + length == u64::MAX, but only {remaining} bytes remain")));
+                }
                 if len > remaining {
                     return Err((
                         if end == b.len() { "len-exceeds-input" } else { "len-exceeds-parent" },
